@@ -1956,7 +1956,15 @@ impl KotoVm {
             self,
             RemainderAssign,
             remainder_assign,
-            |a: &KNumber, b: &KNumber| a % b,
+            |a: &KNumber, b: &KNumber| {
+                if matches!(b, KNumber::I64(0)) {
+                    // Special case for integer remainder when the divisor is zero,
+                    // avoid a panic and return NaN instead (see run_remainder).
+                    f64::NAN.into()
+                } else {
+                    a % b
+                }
+            },
             lhs,
             rhs
         )
